@@ -137,9 +137,10 @@ func TestMain(m *testing.M) {
 
 type msgList struct {
 	magic  int32
-	header proto.Message   // PatchHeader / SignatureHeader / OverlayHeader (never mutated)
+	header proto.Message   // PatchHeader / SignatureHeader / OverlayHeader as decoded
 	fixed  []proto.Message // containers (never mutated)
 	msgs   []proto.Message
+	hmode  string // "" | nocomp (the header's compression sub-message is missing) | badalgo (unknown algorithm)
 }
 
 func decodeList(stream []byte, kind string) (*msgList, error) {
@@ -263,11 +264,25 @@ func (ml *msgList) encode(kind string, comp h.Comp, msgs []proto.Message) ([]byt
 	w := raw
 	switch kind {
 	case "patch":
-		if err := raw.WriteMessage(&pwr.PatchHeader{Compression: comp.Settings()}); err != nil {
+		ph := &pwr.PatchHeader{Compression: comp.Settings()}
+		switch ml.hmode {
+		case "nocomp":
+			ph.Compression = nil
+		case "badalgo":
+			ph.Compression = &pwr.CompressionSettings{Algorithm: 7, Quality: 1}
+		}
+		if err := raw.WriteMessage(ph); err != nil {
 			return nil, err
 		}
 	case "sig":
-		if err := raw.WriteMessage(&pwr.SignatureHeader{Compression: comp.Settings()}); err != nil {
+		sh := &pwr.SignatureHeader{Compression: comp.Settings()}
+		switch ml.hmode {
+		case "nocomp":
+			sh.Compression = nil
+		case "badalgo":
+			sh.Compression = &pwr.CompressionSettings{Algorithm: 7, Quality: 1}
+		}
+		if err := raw.WriteMessage(sh); err != nil {
 			return nil, err
 		}
 	case "overlay":
@@ -577,6 +592,7 @@ type Spec struct {
 	Muts      []Mut  `json:"muts,omitempty"`
 	TruncAt   int    `json:"trunc_at,omitempty"`  // >0: instead of mutating, cut the (re-framed) stream to this many bytes (mod length)
 	TruncAll  bool   `json:"trunc_all,omitempty"` // journal entries of the truncation enumeration: every prefix
+	Header    string `json:"header,omitempty"`    // nocomp | badalgo: the stream's own header message is the hostile one
 }
 
 func check(s Spec) h.Result {
@@ -595,6 +611,10 @@ func check(s Spec) h.Result {
 		return h.Failf("harness cannot decode its own corpus stream: %v", err)
 	}
 	msgs := applyMuts(ml.msgs, s.Muts)
+	if s.Header != "" && kind != "overlay" && s.Target != "apply-resume" {
+		ml.hmode = s.Header
+		cl = append(cl, "mutation:header:"+s.Header)
+	}
 	stream, err := ml.encode(kind, s.Comp, msgs)
 	if err != nil {
 		return h.Result{Skip: "cannot re-frame: " + err.Error()}
@@ -884,6 +904,9 @@ var prop = h.Prop[Spec]{
 		}
 		if rapid.IntRange(0, 9).Draw(t, "also-truncate") == 0 {
 			s.TruncAt = rapid.IntRange(1, 1<<20).Draw(t, "trunc-at")
+		}
+		if rapid.IntRange(0, 11).Draw(t, "hostile-header") == 0 {
+			s.Header = rapid.SampledFrom([]string{"nocomp", "nocomp", "badalgo"}).Draw(t, "header")
 		}
 		return s
 	},
